@@ -298,6 +298,13 @@ func c01Programs(seed int64, perConfig int) []*gen.Program {
 			}
 		}
 	}
+	// histories with a freelist of several pages (a contiguous run is needed at every commit)
+	for _, fl := range backends {
+		for k := 0; k < perConfig/2+1; k++ {
+			out = append(out, gen.GenerateBigFree(seed, i, 1024, gen.OpenOpts{Freelist: fl, NoGrowSync: k%2 == 1}))
+			i++
+		}
+	}
 	return out
 }
 
